@@ -33,6 +33,9 @@ enum Cer {
     /// assertion without an allow list (the in-memory store answers NoCredentials; the ceremony
     /// still takes the lock for its lookup)
     AssertAny,
+    /// assertion with seeded credential k asking for neither presence nor verification, with a user
+    /// validation step that reports neither
+    AssertSilent(usize),
     Register,
 }
 
@@ -102,7 +105,8 @@ fn run_config(cfg: &Config, choose: &mut dyn FnMut(usize, usize) -> usize) -> Ru
             let shared = $shared;
             let mut auths: Vec<Authenticator<_, RecUv>> = Vec::new();
             for i in 0..cfg.cers.len() {
-                let uv = RecUv::new(log.clone(), UvOutcome::Check { presence: true, verification: true }, Some(true)).with_actor(i);
+                let silent = matches!(cfg.cers[i], Cer::AssertSilent(_));
+                let uv = RecUv::new(log.clone(), UvOutcome::Check { presence: !silent, verification: !silent }, Some(true)).with_actor(i);
                 uv.set_yields(cfg.uv_yields);
                 auths.push(mk_auth(shared.clone(), uv, AuthCfg { counters: true, ..Default::default() }));
             }
@@ -120,12 +124,13 @@ fn run_config(cfg: &Config, choose: &mut dyn FnMut(usize, usize) -> usize) -> Ru
                 let creds = &creds;
                 tasks.push(Box::pin(async move {
                     match c {
-                        Cer::Assert(_) | Cer::AssertAny => {
+                        Cer::Assert(_) | Cer::AssertAny | Cer::AssertSilent(_) => {
                             let allow = match c {
-                                Cer::Assert(k) => Some(vec![descriptor(&creds[k].credential_id)]),
+                                Cer::Assert(k) | Cer::AssertSilent(k) => Some(vec![descriptor(&creds[k].credential_id)]),
                                 _ => None,
                             };
-                            match a.get_assertion(ga_request(RP, &[1u8; 32], allow, None, true, true)).await {
+                            let loud = !matches!(c, Cer::AssertSilent(_));
+                            match a.get_assertion(ga_request(RP, &[1u8; 32], allow, None, loud, loud)).await {
                                 Ok(r) => {
                                     let ctr = authdata::decode(&r.auth_data.to_vec()).map(|d| d.counter).unwrap_or(0);
                                     Ok((r.credential.map(|d| d.id.to_vec()).unwrap_or_default(), ctr))
@@ -229,7 +234,7 @@ fn check_history(rep: &mut Report, engine: &str, case: &Value, items: &[(Cer, Op
     // assertions per credential
     let mut per: HashMap<Vec<u8>, Vec<(u32, u64, u64)>> = HashMap::new();
     for (cer, res, s, e) in items {
-        if let (Cer::Assert(_) | Cer::AssertAny, Some(Ok((id, ctr)))) = (cer, res) {
+        if let (Cer::Assert(_) | Cer::AssertAny | Cer::AssertSilent(_), Some(Ok((id, ctr)))) = (cer, res) {
             per.entry(id.clone()).or_default().push((*ctr, *s, *e));
         }
     }
@@ -288,6 +293,8 @@ fn configs(thorough: bool) -> Vec<Config> {
         ("register||register", vec![Cer::Register, Cer::Register]),
         ("assert without allow list||register", vec![Cer::AssertAny, Cer::Register]),
         ("assert without allow list||assert", vec![Cer::AssertAny, Cer::Assert(0)]),
+        ("silent assert||register", vec![Cer::Register, Cer::AssertSilent(0)]),
+        ("silent assert||assert on two credentials", vec![Cer::Assert(1), Cer::AssertSilent(0)]),
     ];
     for (name, cers) in shapes {
         for store in [StoreKind::Memory, StoreKind::Rec] {
@@ -302,7 +309,7 @@ fn configs(thorough: bool) -> Vec<Config> {
                                 v.push(Config { name, cers: cers.clone(), store, lock, uv_yields, store_yields, newest_first: true, update_fault: None });
                             }
                             // a store that refuses one counter update
-                            if cers.iter().any(|c| matches!(c, Cer::Assert(_))) {
+                            if cers.iter().any(|c| matches!(c, Cer::Assert(_) | Cer::AssertSilent(_))) {
                                 v.push(Config { name, cers: cers.clone(), store, lock, uv_yields, store_yields, newest_first: false, update_fault: Some(1) });
                             }
                         }
@@ -466,6 +473,7 @@ fn thread_round(rep: &mut Report, seed: u64, idx: u64, threads: usize, per_threa
                                     Err(e) => Err(status_byte_ref(&e)),
                                 })
                             }
+                            Cer::AssertSilent(_) => unreachable!("not generated by the thread engine"),
                             Cer::Register => block_on_thread(auth.make_credential(mc_request(RP, b"new", &[2u8; 32], vec![pk_param(coset::iana::Algorithm::ES256)], None, None, false, true, true)), 200).map(|r| match r {
                                 Ok(r) => Ok((authdata::decode(&r.auth_data.to_vec()).ok().and_then(|d| d.attested.map(|a| a.cred_id)).unwrap_or_default(), 0)),
                                 Err(e) => Err(status_byte_ref(&e)),
